@@ -3,9 +3,37 @@ From Spg.Base Require Import Prelude Utf8 Bytes.
 From Spg.Model Require Import Tables Rand GenM CharSets CharGen Token WordList WordGen Cli.
 From Spg.Proofs Require Import GenProofs CharGenProofs WordGenProofs CliProofs BuiltinProofs.
 From Spg.Gen Require Cli.
-From Coq Require Import String.
+From Coq Require Import String Permutation.
+From Spg.Base Require Import Multiset.
 Close Scope N_scope.
 Open Scope string_scope.
+
+(** boolean equalities on the tuples the translator emits, with their soundness: the facts below are compared as sets with
+    multiplicity (Permutation) — the order of declarations and statements in opgen.go carries no meaning *)
+Definition s4_eqb (a c : string * string * string * string) : bool :=
+  String.eqb (fst (fst (fst a))) (fst (fst (fst c))) && String.eqb (snd (fst (fst a))) (snd (fst (fst c))) &&
+  String.eqb (snd (fst a)) (snd (fst c)) && String.eqb (snd a) (snd c).
+Lemma s4_eqb_eq a c : s4_eqb a c = true -> a = c.
+Proof.
+  destruct a as [[[a1 a2] a3] a4]. destruct c as [[[c1 c2] c3] c4]. unfold s4_eqb. cbn [fst snd]. intros H.
+  apply andb_prop in H. destruct H as [H H4]. apply andb_prop in H. destruct H as [H H3]. apply andb_prop in H. destruct H as [H1 H2].
+  apply String.eqb_eq in H1. apply String.eqb_eq in H2. apply String.eqb_eq in H3. apply String.eqb_eq in H4. subst. reflexivity.
+Qed.
+Definition s3_eqb (a c : string * string * string) : bool :=
+  String.eqb (fst (fst a)) (fst (fst c)) && String.eqb (snd (fst a)) (snd (fst c)) && String.eqb (snd a) (snd c).
+Lemma s3_eqb_eq a c : s3_eqb a c = true -> a = c.
+Proof.
+  destruct a as [[a1 a2] a3]. destruct c as [[c1 c2] c3]. unfold s3_eqb. cbn [fst snd]. intros H.
+  apply andb_prop in H. destruct H as [H H3]. apply andb_prop in H. destruct H as [H1 H2].
+  apply String.eqb_eq in H1. apply String.eqb_eq in H2. apply String.eqb_eq in H3. subst. reflexivity.
+Qed.
+Definition s2_eqb (a c : string * string) : bool := String.eqb (fst a) (fst c) && String.eqb (snd a) (snd c).
+Lemma s2_eqb_eq a c : s2_eqb a c = true -> a = c.
+Proof.
+  destruct a as [a1 a2]. destruct c as [c1 c2]. unfold s2_eqb. cbn [fst snd]. intros H.
+  apply andb_prop in H. destruct H as [H1 H2]. apply String.eqb_eq in H1. apply String.eqb_eq in H2. subst. reflexivity.
+Qed.
+Definition bytes_eqb_eq := list_eqb_eq N.eqb (fun x y E => proj1 (N.eqb_eq x y) E).
 
 (** ---- the tables, defaults and exit statuses of the CURRENT source are the documented ones
         and the ones the model uses ---- *)
@@ -51,33 +79,43 @@ Theorem C17_capitalize_words :
 Proof. vm_compute. repeat split; reflexivity. Qed.
 
 Theorem C17_flags_and_defaults :
-  Gen.Cli.cli_flags =
+  Permutation Gen.Cli.cli_flags
     [("characters", "length", "int", "field:defaultCharRecipe.length"); ("characters", "allow", "string", "const:");
      ("characters", "require", "string", "const:"); ("characters", "exclude", "string", "const:"); ("characters", "entropy", "bool", "const:false");
      ("words", "size", "int", "const:4"); ("words", "list", "string", "const:words"); ("words", "file", "string", "const:");
      ("words", "separator", "string", "const:hyphen"); ("words", "capitalize", "string", "const:none"); ("words", "entropy", "bool", "const:false")] /\
   Gen.Cli.cli_default_char_recipe = [("length", "const:20"); ("allow", "list:uppercase,lowercase,digits,symbols"); ("exclude", "list:ambiguous")] /\
-  Gen.Cli.cli_word_lists = [("words", "AgileWords"); ("syllables", "AgileSyllables")].
-Proof. vm_compute. repeat split; reflexivity. Qed.
+  Permutation Gen.Cli.cli_word_lists [("words", "AgileWords"); ("syllables", "AgileSyllables")].
+Proof.
+  split; [apply (same_multiset_perm s4_eqb s4_eqb_eq); vm_compute; reflexivity|].
+  split; [vm_compute; reflexivity|apply (same_multiset_perm s2_eqb s2_eqb_eq); vm_compute; reflexivity].
+Qed.
 
 (** the model's flag sets and defaults are those *)
 Theorem C17_model_defaults :
-  map fst char_defs = map (fun f => bos (snd (fst (fst f)))) (filter (fun f => String.eqb (fst (fst (fst f))) "characters") Gen.Cli.cli_flags) /\
-  map fst word_defs = map (fun f => bos (snd (fst (fst f)))) (filter (fun f => String.eqb (fst (fst (fst f))) "words") Gen.Cli.cli_flags) /\
+  Permutation (map fst char_defs) (map (fun f => bos (snd (fst (fst f)))) (filter (fun f => String.eqb (fst (fst (fst f))) "characters") Gen.Cli.cli_flags)) /\
+  Permutation (map fst word_defs) (map (fun f => bos (snd (fst (fst f)))) (filter (fun f => String.eqb (fst (fst (fst f))) "words") Gen.Cli.cli_flags)) /\
   (default_length, default_size, default_list, default_separator, default_capitalize) = (20%Z, 4%Z, bos "words", bos "hyphen", bos "none") /\
   default_allow = map bos ["uppercase"; "lowercase"; "digits"; "symbols"] /\ default_exclude = [bos "ambiguous"] /\ default_require = [].
-Proof. vm_compute. repeat split; reflexivity. Qed.
+Proof.
+  split; [apply (same_multiset_perm (list_eqb N.eqb) bytes_eqb_eq); vm_compute; reflexivity|].
+  split; [apply (same_multiset_perm (list_eqb N.eqb) bytes_eqb_eq); vm_compute; reflexivity|].
+  vm_compute. repeat split; reflexivity.
+Qed.
 
 Theorem C17_exit_statuses :
   Gen.Cli.cli_exit_consts = [("ExitSuccess", 0%N); ("ExitCatchall", 1%N); ("ExitUsage", 2%N)] /\
-  map (fun s => (fst (fst (fst s)), snd (fst s), snd s)) Gen.Cli.cli_exit_sites =
+  Permutation (map (fun s => (fst (fst (fst s)), snd (fst s), snd s)) Gen.Cli.cli_exit_sites)
     [("main", "os.Exit", "const:2"); ("main", "os.Exit", "const:2"); ("main", "os.Exit", "const:2"); ("main", "os.Exit", "const:2");
      ("main", "log.Fatalln", ""); ("parseRecipe", "os.Exit", "const:2"); ("parseWordList", "os.Exit", "const:2");
      ("parseWordList", "os.Exit", "const:1"); ("loadWordListFile", "log.Fatalln", ""); ("loadWordListFile", "log.Fatalln", "")] /\
   (* what opgen itself writes to standard output: the entropy, the password, the usage text *)
-  map (fun s => (fst (fst (fst s)), snd (fst s))) Gen.Cli.cli_stdout_sites =
+  Permutation (map (fun s => (fst (fst (fst s)), snd (fst s))) Gen.Cli.cli_stdout_sites)
     [("main", "fmt.Printf"); ("main", "fmt.Println"); ("printUsage", "fmt.Println")].
-Proof. vm_compute. repeat split; reflexivity. Qed.
+Proof.
+  split; [vm_compute; reflexivity|].
+  split; [apply (same_multiset_perm s3_eqb s3_eqb_eq); vm_compute; reflexivity|apply (same_multiset_perm s2_eqb s2_eqb_eq); vm_compute; reflexivity].
+Qed.
 
 (** how the recipe is put together from the flags (source text of the two constructors and of the class-list parser) *)
 Theorem C17_recipe_construction :
